@@ -108,38 +108,59 @@ func VH_C15_lease() {
 		hb = vhHolder{ok: true, until: pre.Until}
 	}
 	hook.afterGet = func() { vhLeaseOp(b, &hb) }
+	_ = base
 
-	// node 1's call, with node 2 interfering between its read and its write
-	d := vhLeaseDuration()
-	t0 := time.Now()
-	recBefore, hadBefore := kv.VHGetRaw(lf, vhLeaseKey)
-	err := a.LeaseTable("t", d)
-	if err == nil {
-		ha = vhHolder{ok: true, until: t0.Add(d)}
-		verif.Cover("granted")
-		rec, ok := kv.VHGetRaw(lf, vhLeaseKey)
-		verif.Assert(ok, "a granted lease is recorded")
-		var l Lease
-		verif.Assert(json.Unmarshal([]byte(rec.Value), &l) == nil && l.ID == 1, "the record names the grantee")
+	// node 1's call (lease / renew, or return), with node 2 interfering between its read and its write
+	if verif.Bool() {
+		d := vhLeaseDuration()
+		t0 := time.Now()
+		err := a.LeaseTable("t", d)
+		if err == nil {
+			ha = vhHolder{ok: true, until: t0.Add(d)}
+			verif.Cover("granted")
+			rec, ok := kv.VHGetRaw(lf, vhLeaseKey)
+			verif.Assert(ok, "a granted lease is recorded")
+			var l Lease
+			verif.Assert(json.Unmarshal([]byte(rec.Value), &l) == nil && l.ID == 1, "the record names the grantee")
+		}
+	} else {
+		if ok, err := a.ReturnTable("t"); err == nil && ok {
+			ha.ok = false
+			verif.Cover("returned")
+		}
 	}
-	_, _ = recBefore, hadBefore
-	// node 2 may act again afterwards
+	// a third node may act afterwards, then node 2 again
+	c := vhManagerOn(rs, 3)
+	var hc vhHolder
+	if hasPre && pre.ID == 3 {
+		hc = vhHolder{ok: true, until: pre.Until}
+	}
+	vhLeaseOp(c, &hc)
 	vhLeaseOp(b, &hb)
 
 	now := time.Now()
 	holdsA := ha.ok && now.Before(ha.until)
 	holdsB := hb.ok && now.Before(hb.until)
-	verif.Assert(!(holdsA && holdsB), "at most one node holds an unexpired lease")
-	if holdsA || holdsB {
-		verif.Cover("held")
+	holdsC := hc.ok && now.Before(hc.until)
+	verif.Assert(!(holdsA && holdsB) && !(holdsA && holdsC) && !(holdsB && holdsC), "at most one node holds an unexpired lease")
+	// whoever holds an unexpired lease (and did not return it) still owns the record:
+	// nobody else's lease or return call took or removed it
+	rec, ok := kv.VHGetRaw(lf, vhLeaseKey)
+	var l Lease
+	if ok {
+		verif.Assert(json.Unmarshal([]byte(rec.Value), &l) == nil, "lease record decodes")
 	}
-	// a third node's unexpired record is never overwritten or removed by either
-	if hasPre && pre.ID == 3 && now.Before(pre.Until) {
-		rec, ok := kv.VHGetRaw(lf, vhLeaseKey)
-		var l Lease
-		verif.Assert(ok && json.Unmarshal([]byte(rec.Value), &l) == nil && l.ID == 3, "an unexpired lease of another node is neither taken nor removed")
-		verif.Assert(!holdsA && !holdsB, "nobody else holds a lease while a third node's lease is unexpired")
-		verif.Cover("third-node")
+	if holdsA {
+		verif.Assert(ok && l.ID == 1, "an unexpired lease is neither taken nor removed by another node (node 1)")
+	}
+	if holdsB {
+		verif.Assert(ok && l.ID == 2, "an unexpired lease is neither taken nor removed by another node (node 2)")
+	}
+	if holdsC {
+		verif.Assert(ok && l.ID == 3, "an unexpired lease is neither taken nor removed by another node (node 3)")
+	}
+	if holdsA || holdsB || holdsC {
+		verif.Cover("held")
 	}
 	verif.Cover("end")
 }
